@@ -53,8 +53,8 @@ def install_rule_counters():
 
 
 def make_case(rnd, i):
-    naming = ["distinct", "identical", "reuse"][i % 3]
-    mf = [0.0, 1.0, 0.5][(i // 3) % 3]
+    naming = ["distinct", "identical", "reuse", "arglike"][i % 4]
+    mf = [0.0, 1.0, 0.5][(i // 4) % 3]
     g = Gen(rnd, naming=naming, method_form=mf, hostile_sel=0.15 if i % 5 == 0 else 0.0)
     q, stages = g.chain(rnd.randint(1, 6), rnd.randint(1, 4))
     return g, q, stages, naming, mf
@@ -71,6 +71,12 @@ def check_one(ctx, q, data, info, classify=True):
     _fired.clear()
     src_in = astx.dump_fields(q)
     fn_in = astx.free_names(q)
+    if info.get("naming") == "arglike" or info.get("fresh_process_counter"):
+        # what a fresh process (e.g. a backend receiving a query a client already simplified) starts from
+        import func_adl.ast.function_simplifier as _fs
+
+        _fs.argument_var_counter = 0
+        ctx.count("cases-with-generated-name-counter-at-zero")
     try:
         out = simplify_chained_calls().visit(astx.clone(q))
     except Exception as e:
@@ -88,6 +94,17 @@ def check_one(ctx, q, data, info, classify=True):
         if b[0] == "ok" and a != b:
             problems.append((f"mismatch:{a[0]}", f"dataset#{di}: before={str(b)[:200]} after={str(a)[:200]}"))
             break
+    # simplifying again (a backend simplifying a query that a client already simplified) must keep the meaning too
+    try:
+        out2 = simplify_chained_calls().visit(astx.clone(out))
+        after2 = [evaluate(out2, d, GLOB) for d in data]
+        for di, (b, a) in enumerate(zip(before, after2)):
+            if b[0] == "ok" and a != b:
+                problems.append((f"mismatch-after-second-pass:{a[0]}", f"dataset#{di}: before={str(b)[:160]} after simplifying the output again={str(a)[:160]}"))
+                break
+        ctx.count("second-pass-checked")
+    except Exception as e:
+        problems.append((f"second-pass-raised:{type(e).__name__}", f"simplifying the simplifier's own output raised {type(e).__name__}: {str(e)[:120]}"))
     changed = astx.dump_fields(out) != src_in
     ok_nonempty = any(b[0] == "ok" for b in before[1:])
     ctx.case(src_in, nontrivial=changed and ok_nonempty)
@@ -165,6 +182,8 @@ DIRECTED = [
     ("Select(EventDataset(), lambda e: Select(Select(e.jets, lambda j: (j, e.met)), lambda t: Select(t[0].trks, lambda e: e.pt + t[1])))", "capture-one-level-below-substitution-nested"),
     ("Select(EventDataset(), lambda e: (lambda x: Select(e.jets, lambda e: Select(Select(e.trks, lambda j: j.pt + x), lambda p: p * 2)))(e.met))", "substituted-argument-revisited-under-renamed-binder"),
     ("Select(EventDataset(), lambda x: (lambda x, x_: Where(Where(x_.trks, lambda x: x_.met > x.x), lambda x: x_.y > x.pt))(1, x))", "substituted-argument-revisited-under-called-lambda-parameter"),
+    ("Select(EventDataset(), lambda arg_1: Select(Select(arg_1.jets, lambda j: (j.pt, arg_1.met)), lambda p: p[0] + p[1]))", "arglike:user-binder-named-like-a-generated-name"),
+    ("Select(EventDataset(), lambda arg_0: Select(Select(arg_0.jets, lambda arg_1: (arg_1.pt, arg_0.met)), lambda arg_2: arg_2[0] + arg_2[1]))", "arglike:already-simplified-query"),
     ("Select(EventDataset(), lambda a: (lambda a, b: a.y - b)(a, a.x))", "called-lambda-later-argument-sees-earlier-parameter"),
     ("Select(EventDataset(), lambda a: (lambda b, a: a.y - b)(a=a, b=a.x))", "called-lambda-keyword-argument-order"),
     ("Where(EventDataset(), lambda e: True)", "where-true"),
@@ -205,7 +224,8 @@ def targeted_reuse(rnd):
     outer names (E, J) for T, below which 1-3 further lambdas re-bind names drawn from the same small pool."""
     pool = ["e", "j", "t", "k"]
     E, J, T = rnd.choice(pool), rnd.choice(pool), rnd.choice(pool)
-    pack = rnd.choice([f"({J}, {E}.met)", f"({J}, {E}.met + {J}.pt)", f"{{'j': {J}, 'm': {E}.met}}", f"[{J}, {E}.x]"])
+    pack = rnd.choice([f"({J}, {E}.met)", f"({J}, {E}.met + {J}.pt)", f"{{'j': {J}, 'm': {E}.met}}", f"[{J}, {E}.x]",
+                       f"({J}, Count(Select({J}.trks, lambda q_: q_.pt + {E}.met)))", f"({J}, Count(Where({J}.trks, lambda {rnd.choice(pool)}_: {E}.met > 0)))"])
     if pack.startswith("{"):
         t0, t1 = f"{T}.j", f"{T}['m']"
     else:
@@ -238,7 +258,7 @@ def shard_main(ctx):
         rnd = random.Random(12345)
         data = datasets(rnd)
         for text, tag in DIRECTED:
-            run_case(ctx, astx.parse_expr(text), data, {"naming": "directed:" + tag, "directed": text})
+            run_case(ctx, astx.parse_expr(text), data, {"naming": "directed:" + tag, "directed": text, "fresh_process_counter": tag.startswith("arglike")})
     n = N_CASES[ctx.tier]
     for i in range(n):
         if ctx.out_of_time():
